@@ -39,6 +39,20 @@ SWEEP_METHODS = [
     ["Base: s", "Set1: 5", "Watch: In < 1 L/h", "    Pause: 0.5s", "    Long", "Wait: 1s", "Fail", ""],
 ]
 
+INJECT_SWEEP_METHODS = [
+    ["Base: s", "Block: B1", "    Watch: In < 1 L/h", "        End block", "    Wait: 1s", "    Mark: inB", "Mark: after", "Wait: 1s",
+     "Mark: last", ""],
+    ["Base: s", "Block: B1", "    Block: B2", "        Alarm: In < 1 L/h", "            End blocks", "        Wait: 0.8s", "    Mark: inB1",
+     "Wait: 1s", "Mark: last", ""],
+    ["Base: s", "Watch: In < 1 L/h", "    Wait: 0.5s", "    Mark: w", "Block: B1", "    0.5 End block", "Wait: 1s", ""],
+]
+
+CANCEL_FORCE_SWEEP_METHODS = [
+    ["Base: s", "Pause: 0.5s", "Mark: A", "Hold: 0.5s", "Mark: B", "Wait: 0.5s", "Mark: C", ""],
+    ["Base: s", "Watch: In > 2 L/h", "    Mark: W", "Long", "0.8 Mark: T", "Wait: 0.3s", "Mark: E", ""],
+    ["Base: s", "Alarm: In < 1 L/h", "    Mark: AL", "    Wait: 0.3s", "Block: B1", "    0.5 Short", "    End block", "Mark: X", ""],
+]
+
 CONTROLS = ["Start", "Stop", "Pause", "Unpause", "Hold", "Unhold", "Restart"]
 SNIPPETS = ["Mark: inj", "Set1: 1", "Set1: 2", "Short", "Long", "Wait: 0.2s", "Block: IB\n    Mark: ib\n    End block", "Fail",
             "Pause: 0.2s", "Hold: 0.2s"]
@@ -159,6 +173,26 @@ def build(ctx: core.Ctx):
                     [{"req": [{"k": "control", "name": name}]}] + [{} for _ in range(8)]
                 runs.append(_run(f"swp-{n}", "swp", method, steps))
                 n += 1
+    # code injected at every tick of methods whose block is ended from an interrupt while the main program is still inside it
+    n = 0
+    for method in INJECT_SWEEP_METHODS:
+        for text in ("Mark: inj", "Short", "Block: IB\n    Mark: ib\n    End block"):
+            for at in range(1, 19 if ctx.quick else 26):
+                steps = [{"req": [{"k": "control", "name": "Start"}], "in": {"In": 0.0}}] + [{} for _ in range(at)] + \
+                    [{"req": [{"k": "inject", "text": text}]}] + [{} for _ in range(14)]
+                runs.append(dict(_run(f"swi-{n}", "prog", method, steps), variant="inject"))
+                n += 1
+    # cancel / force of every run-log item at every tick of methods with a timed Pause and Hold, a pending Watch, a re-arming
+    # Alarm, a Wait, a threshold and a long UOD command (the random variants rarely hit the short windows of Pause and Hold)
+    n = 0
+    for method in CANCEL_FORCE_SWEEP_METHODS:
+        for kind in ("cancel", "force"):
+            for item in range(2, 10 if ctx.quick else 13):
+                for at in range(2, 16 if ctx.quick else 22):
+                    steps = [{"req": [{"k": "control", "name": "Start"}], "in": {"In": 0.0}}] + [{} for _ in range(at)] + \
+                        [{"req": [{"k": kind, "item": item}]}] + [{} for _ in range(12)]
+                    runs.append(dict(_run(f"cfs-{n}", "prog", method, steps), variant="cancelforce"))
+                    n += 1
     nrnd = 600 if ctx.quick else 3000
     for i in range(nrnd):
         method = rnd.choice(METHOD_POOL)
@@ -175,9 +209,10 @@ def build(ctx: core.Ctx):
                 if urnd.random() < 0.25:
                     req.append({"k": "control", "name": urnd.choice(["Long", "OvA", "OvB", "Forever"])})
             elif k < 0.36:
-                # (no Stop / Restart here: a user command requested while a Restart is in progress is created on the tracking
-                #  object that the restart replaces and later fails with "No record found" -- observed, see DESIGN.md 0.5)
                 req.append({"k": "control", "name": urnd.choice(["Pause", "Unpause", "Hold", "Unhold"])})
+            elif k < 0.40 and i % 2 == 1:
+                # every other run also ends / restarts the run around the user's commands
+                req.append({"k": "control", "name": urnd.choice(["Stop", "Restart", "Restart", "Start"])})
             elif k < 0.42:
                 req.append({"k": urnd.choice(["cancel", "force"]), "item": urnd.randint(1, 8)})
             steps.append({"req": req})
@@ -218,7 +253,7 @@ def project_runstate(run):
     """events for RunStateTrace.tla"""
     out = []
     failed, w1, writer, scope, mrestart, pstate = [], [], False, False, False, "Stopped"
-    edited = False
+    edited, failed_any = False, False
     for e in run["events"]:
         k = e["e"]
         if k == "tickBegin":
@@ -231,6 +266,8 @@ def project_runstate(run):
         elif k == "flag":
             if e["f"] == "failed" and e["new"] == "True" and e["n"].startswith("L"):     # method lines (injected code has no line)
                 failed.append(e["n"])
+            if e["f"] == "failed" and e["new"] == "True":
+                failed_any = True                      # any instruction: method line, injected code, user command
             if e["cls"] in SCOPE_CLS and e["f"] in ("started", "completed", "activated", "lock_acquired", "block_ended"):
                 scope = True
             if e["f"] == "started" and e["new"] == "True" and e["ins"] == "Restart":
@@ -247,10 +284,10 @@ def project_runstate(run):
                         "btu": e["btu"], "stu": e["stu"], "block": e["block"], "out1": e["out"]["Out1"], "hw1": e["hw"]["Out1"],
                         "w1": w1, "failedNodes": failed, "mfailed": e["mstate"].get("failed", []), "scopeChange": scope,
                         "writerExec": writer, "methodRestart": mrestart, "pstate": pstate, "edited": edited,
-                        "stopping": bool(e.get("stopping", False))})
+                        "stopping": bool(e.get("stopping", False)), "failedAny": failed_any})
             if not e["started"]:
                 edited = False
-            failed, w1, writer, scope, mrestart = [], [], False, False, False
+            failed, w1, writer, scope, mrestart, failed_any = [], [], False, False, False, False
     return {"id": run["id"], "ev": out}
 
 
